@@ -112,7 +112,8 @@ STAT_RE = re.compile(r"(\d+) states generated, (\d+) distinct states found, (\d+
 
 
 def tlc_mc(ctx, module, consts=None, invariants=(), properties=(), workers=8, timeout=1200, constraint=None,
-           view=None, deadlock=False, want_vectors=True, spec="Spec", simulate=None, coverage=False, env=None, expect_violation=None):
+           view=None, deadlock=False, want_vectors=True, spec="Spec", simulate=None, coverage=False, env=None, expect_violation=None,
+           cover=None):
     """model-check spec/<module>.tla; returns (vectors, stats). Any TLC error = the specification itself is
     violated = tool/spec error (exit 2), never a verdict about libhaystack."""
     cfg = ctx.fresh(module) + ".cfg"
@@ -122,7 +123,7 @@ def tlc_mc(ctx, module, consts=None, invariants=(), properties=(), workers=8, ti
     args = [TLCW, str(timeout), meta, "-workers", str(workers), "-config", cfg]
     if simulate:
         args += ["-simulate", simulate, "-seed", str(ctx.seed)]
-    if coverage:
+    if coverage or cover:
         args += ["-coverage", "1"]
     args.append(module + ".tla")
     t = time.time()
@@ -150,12 +151,42 @@ def tlc_mc(ctx, module, consts=None, invariants=(), properties=(), workers=8, ti
     ctx.transitions += gen
     ctx.mc_runs.append({"module": module, "constants": consts or {}, "distinct_states": dist, "states_generated": gen,
                         "wall_s": round(time.time() - t, 1), "invariants": list(invariants), "properties": list(properties)})
+    if cover:
+        dead = uncovered(out, cover[0], cover[1])
+        ctx.mc_runs[-1]["coverage"] = {"module": cover[0], "never_evaluated": len(dead)}
+        if dead:
+            raise ToolError("vacuity guard: %s has expressions TLC never evaluated in this model (an action or branch that is "
+                            "never taken means the invariants were not exercised there):\n  %s" % (cover[0], "\n  ".join(dead[:12])))
     vecs = []
     if want_vectors:
         for line in out.splitlines():
             if line.startswith('"VEC '):
                 vecs.append(json.loads(json.loads(line)[4:]))
     return vecs, out
+
+
+COVER_RE = re.compile(r"^\s*\|*line (\d+), col (\d+) to line (\d+), col (\d+) of module (\w+): 0\s*$")
+
+
+def uncovered(out, module, allow):
+    """source text of the expressions of `module` with a zero count in TLC's -coverage statistics, minus those matching
+    one of the `allow` regexes (branches that are unreachable by construction, stated at the call site)"""
+    src = open(os.path.join(SPEC, module + ".tla")).read().splitlines()
+    dead = []
+    seen = set()
+    for line in out.splitlines():
+        m = COVER_RE.match(line)
+        if not m or m.group(5) != module:
+            continue
+        l1, c1, l2, c2 = (int(m.group(i)) for i in range(1, 5))
+        if (l1, c1, l2, c2) in seen:
+            continue
+        seen.add((l1, c1, l2, c2))
+        text = " ".join(src[l1 - 1:l2])[:200] if l1 != l2 else src[l1 - 1][c1 - 1:c2]
+        if any(re.search(a, text) for a in allow):
+            continue
+        dead.append("%s.tla:%d:%d  %s" % (module, l1, c1, text.strip()[:140]))
+    return dead
 
 
 def tail_of(out, n=40):
